@@ -637,9 +637,24 @@ def run_store_case(ctx, case, env):
                     return f'{label} with the endpoint down: {describe(res)}, StoreUnavailable is due'
             return None
         if k == 's3-no-bucket':
-            res = classify_call(lambda: store.get_chunk('nobucket/x', slices, x.dtype))
-            if res[0] == 'ok' or not isinstance(res[1], StoreUnavailable):
-                return f'get_chunk from a missing bucket: {describe(res)}, StoreUnavailable is due'
+            # a missing bucket stays an unreachable store however often it is asked (a failed bucket check is
+            # not remembered as a success)
+            for attempt in range(3):
+                res = classify_call(lambda: store.get_chunk('nobucket/x', slices, x.dtype))
+                if res[0] == 'ok' or not isinstance(res[1], StoreUnavailable):
+                    return (f'get_chunk from a missing bucket, attempt {attempt + 1} on the same store: '
+                            f'{describe(res)}, StoreUnavailable is due')
+            # a genuinely missing chunk in the populated bucket (remembered as a good bucket) says nothing about
+            # a missing bucket whose name merely extends it
+            bucket = name.split('/')[0]
+            res = classify_call(lambda: store.get_chunk(f'{bucket}/absent', slices, x.dtype))
+            if res[0] == 'ok' or not isinstance(res[1], ChunkNotFound) or isinstance(res[1], StoreUnavailable):
+                return f'missing chunk in a populated bucket: {describe(res)}, ChunkNotFound is due'
+            for longer in (f'{bucket}-flags', f'{bucket}0'):
+                res = classify_call(lambda: store.get_chunk(f'{longer}/x', slices, x.dtype))
+                if res[0] == 'ok' or not isinstance(res[1], StoreUnavailable):
+                    return (f'get_chunk from the missing bucket {longer!r} after a 404 in the populated bucket '
+                            f'{bucket!r}: {describe(res)}, StoreUnavailable is due')
             e = store.put_chunk_noraise('nobucket/x', slices, x)
             if not is_cse(e):
                 return f'put into a missing bucket returned {e!r}'
